@@ -32,6 +32,17 @@ def stages(tier, rng, only=None):
                                                         algorun.ALL_CONFIGS, SCHEMES + ac.grid_sample(rng, 5),
                                                         namings=["ints", "letters", "digits", "mixed2"],
                                                         every={k: 4 * v for k, v in COSTLY.items()}), _nt))
+    g = grids.datasets(3, 2)
+    out.append(ac.stage("reuse_after_mutation", PID, lambda: ac.reuse_mutate_cases(
+        g[::3] + [ac.random_dataset(rng, 6, 5, nmin=2) for _ in range(150 if tier == "quick" else 1500)],
+        algorun.ALL_CONFIGS, SCHEMES, rng, flags=(1, 0), every=COSTLY), _nt))
+    out.append(ac.stage("reuse_other_dataset", PID, lambda: ac.reuse_other_cases(
+        g[::5] + [ac.random_dataset(rng, 6, 5, nmin=2) for _ in range(100 if tier == "quick" else 1000)],
+        algorun.ALL_CONFIGS, SCHEMES, rng, flags=(1, 0), every=COSTLY), _nt))
+    out.append(ac.stage("cycles", PID, lambda: ac.cases(
+        [ac.cyclic_dataset(rng, 3, 5, incomplete=k % 2 == 1) for k in range(120 if tier == "quick" else 1200)]
+        + [ac.two_cycles(rng) for _ in range(8 if tier == "quick" else 60)],
+        algorun.ALL_CONFIGS, SCHEMES, namings=ac.NAMINGS3, every={k: 2 * v for k, v in COSTLY.items()}), _nt))
     from .C11 import stages as kwik_stages
     for st in kwik_stages(tier, rng, prop=PID):
         if st.name in ("grid3x2", "grid4x2sample", "grid4x2", "random5"):
